@@ -122,8 +122,8 @@ def run_instance(inst, tier):
             seen.add(key)
             if not (len(el.edge_list) == len(el.topologies) == len(el.motif_id)):
                 return
-            if any(not (isinstance(e, (tuple, list)) and len(e) == 2 and isinstance(e[0], int)) for e in el.edge_list):
-                return
+            if any(not (isinstance(e, tuple) and len(e) == 2 and isinstance(e[0], int)) for e in el.edge_list):
+                return  # the converter's contract is pairs as tuples (the library's motif builders return tuples)
             f = features(meta["jds"], el.edge_list)
             res.flags.update("gen:" + x for x in f)
             if f:
